@@ -943,6 +943,7 @@ def mask_select(interp, arr, mask):
         r = arr_new(interp, idx.n, lambda k: arr.sel(idx.sel(k)), arr.kind, arr.dtype)
         store[key] = (r.a, r.n)
     r.sel_idx = idx
+    r.sel_mask = SArr(mask.n, mask.a, "bool")
     r.item_shape = getattr(arr, "item_shape", ())
     return r
 
@@ -2315,3 +2316,17 @@ def _path_stat(interp, path, **kw):
 @model(slice)
 def _slice(interp, *args):
     return slice(*args)
+
+
+def where_ext(interp, a, b):
+    """N-WHERE-EXT: elementwise equal masks have the same enumeration (same
+    number of true entries, same positions, same ranks); returned as a formula"""
+    axiom("N-WHERE-EXT (extensionality of np.where)")
+    ia, ib = where_idx(interp, a), where_idx(interp, b)
+    k = z3.Int("k!we")
+    j = z3.Int("j!we")
+    same = z3.And(a.n == b.n, z3.ForAll([k], z3.Implies(z3.And(k >= 0, k < a.n), a.sel(k) == b.sel(k))))
+    concl = z3.And(ia.n == ib.n,
+                   z3.ForAll([j], z3.Implies(z3.And(j >= 0, j < ia.n), ia.sel(j) == ib.sel(j))),
+                   z3.ForAll([k], z3.Implies(z3.And(k >= 0, k < a.n, a.sel(k)), ia.rank(k) == ib.rank(k))))
+    return z3.Implies(same, concl)
